@@ -1,8 +1,8 @@
-(* Extract_dist.v -- extraction of the distributed-layer models (C11, C12) to OCaml.
+(* Extract_dist.v -- extraction of the distributed-layer models (C11) to OCaml.
    Directives: ExtractCommon.v (trusted base, DESIGN.md section 6). *)
 From Amgcl Require Import ExtractCommon.
 From Coq Require Import QArith Qcanon.
-From Amgcl Require Import Scalar QcInst Vec Crs Kernels MatOps Dist DistSolve.
+From Amgcl Require Import Scalar QcInst Vec Crs Kernels MatOps Dist.
 Separate Extraction
   QcInst.QcS Scalar.is_zero Scalar.smax Scalar.smin
-  Vec Crs Kernels MatOps Dist DistSolve.
+  Vec Crs Kernels MatOps Dist.
